@@ -2,7 +2,12 @@
 //!
 //! ops, executed in order on one Session (keyspaces `ka`, `kb`; requests are `SELECT pk, v FROM t WHERE pk = 0x<id>`,
 //! i.e. they NEED the connection's keyspace):
-//!   `ua` / `ub`   session.use_keyspace("ka" / "kb", cs)
+//!   `ua` / `ub` / `uA`   session.use_keyspace("ka" / "kb" / "Ka", cs)      `va` / `vb` / `vA`  the same with the OTHER flag
+//!   `ui` / `uI` / `uJ`   session.use_keyspace(<invalid name>, cs): "bad name" / "k;DROP" / 49 characters
+//!   `da<k>` / `db<k>` / `dA<k>`  TWO use_keyspace calls for the same name concurrently; as soon as the first returns Ok,
+//!                 k requests are submitted (while the other call may still be running)
+//!   `f1` / `f0`   from now on the nodes answer `USE` with an Invalid error / normally again
+//!   `t1` / `t0`   from now on the nodes do not answer `USE` at all (the call times out after `ct` ms) / normally again
 //!   `q<k>`        k requests, one after another
 //!   `c<k>`        k requests concurrently
 //!   `xa<k>`/`xb<k>` use_keyspace CONCURRENTLY with k requests
@@ -14,7 +19,9 @@
 //!
 //! ORACLE at the nodes (C20's statement): each request frame records the keyspace its connection had ACKNOWLEDGED when
 //! the frame arrived. For a request submitted after `use_keyspace(k)` returned Ok and while no other use_keyspace call
-//! was running, that keyspace must be k. (For a request submitted while a later use_keyspace(k') was still running,
+//! was running, that keyspace must be k (the keyspace a server selects: an unquoted name is lower-cased) - whatever
+//! happened before: an earlier call for the same name that failed or timed out, the same name with the other flag.
+//! An invalid name is rejected every time it is passed, and no frame ever contains it. (For a request submitted while a later use_keyspace(k') was still running,
 //! k or k' are both accepted.) Requests submitted before the first successful use_keyspace are unconstrained.
 use super::common::*;
 use crate::mockcluster::*;
@@ -23,7 +30,102 @@ use crate::rng::Rng;
 use crate::{Ctx, Tier};
 use std::time::Duration;
 
+/// Histories that REPEAT a name: after a failed / timed-out call, concurrently, an invalid name several times, the
+/// same name with the other case_sensitive flag.
+fn generate_repeats(rng: &mut Rng, tier: Tier, emit: &mut dyn FnMut(String)) {
+    let n_cases = if tier == Tier::Quick { 36 } else { 360 };
+    for c in 0..n_cases {
+        let n = 1 + rng.below(3);
+        let name = *rng.pick(&["a", "b", "A"]);
+        let other = if name == "b" { "a" } else { "b" };
+        let rq = |rng: &mut Rng| format!("{}{}", rng.pick(&["q", "c"]), 2 + rng.below(4));
+        let mut ops: Vec<String> = Vec::new();
+        let mut ct = 0u64;
+        let mut udelay = *rng.pick(&[0u64, 0, 5, 20]);
+        if rng.bool() {
+            ops.push(format!("u{}", other));
+            ops.push(rq(rng));
+        }
+        match c % 6 {
+            // the server rejects the USE; the retry with the same name must send it again
+            0 => {
+                ops.push("f1".into());
+                for _ in 0..1 + rng.below(2) {
+                    ops.push(format!("u{}", name));
+                    ops.push(rq(rng));
+                }
+                ops.push("f0".into());
+                ops.push(format!("u{}", name));
+                ops.push(rq(rng));
+            }
+            // the USE is not answered: the call times out; retry with the same name
+            1 => {
+                ct = 250;
+                ops.push("t1".into());
+                ops.push(format!("u{}", name));
+                ops.push("t0".into());
+                ops.push(format!("u{}", name));
+                ops.push(rq(rng));
+            }
+            // an invalid name, repeatedly
+            2 => {
+                let bad = *rng.pick(&["i", "I", "J"]);
+                for _ in 0..2 + rng.below(2) {
+                    ops.push(format!("u{}", bad));
+                    if rng.bool() {
+                        ops.push(rq(rng));
+                    }
+                }
+                ops.push(format!("u{}", name));
+                ops.push(rq(rng));
+                ops.push(format!("u{}", bad));
+                ops.push(rq(rng));
+            }
+            // the same name with the other case_sensitive flag (`Ka` unquoted is keyspace ka, quoted is Ka)
+            3 => {
+                ops.push("uA".into());
+                ops.push(rq(rng));
+                ops.push("vA".into());
+                ops.push(rq(rng));
+                ops.push("uA".into());
+                ops.push(rq(rng));
+            }
+            // two concurrent calls for the same name, USE answers delayed
+            4 => {
+                udelay = *rng.pick(&[20u64, 40]);
+                ops.push(format!("d{}{}", name, 3 + rng.below(4)));
+                ops.push(rq(rng));
+            }
+            // the same name again after connection loss / for a new node
+            _ => {
+                ops.push(format!("u{}", name));
+                ops.push(if rng.bool() { "K".to_owned() } else { format!("k{}", rng.below(n)) });
+                ops.push(format!("u{}", name));
+                ops.push(rq(rng));
+                ops.push("f1".into());
+                ops.push(format!("u{}", other));
+                ops.push("f0".into());
+                ops.push(format!("u{}", other));
+                ops.push(rq(rng));
+            }
+        }
+        ops.push("w".into());
+        ops.push("c6".into());
+        emit(format!(
+            "e2e keyspace n={} sh={} cs={} udelay={} ct={} seed={} ops={}",
+            n,
+            *rng.pick(&[0u64, 0, 2]),
+            rng.below(2),
+            udelay,
+            ct,
+            rng.below(1 << 32),
+            ops.join(".")
+        ));
+    }
+}
+
 pub fn generate(rng: &mut Rng, tier: Tier, emit: &mut dyn FnMut(String)) {
+    generate_repeats(rng, tier, emit);
     let n_cases = if tier == Tier::Quick { 40 } else { 400 };
     for _ in 0..n_cases {
         let n = 1 + rng.below(3);
@@ -77,6 +179,33 @@ struct Submitted {
     op: usize,
 }
 
+const INVALID_I: &str = "bad name";
+const INVALID_SEMI: &str = "k;DROP";
+const INVALID_LONG: &str = "a23456789_123456789_123456789_123456789_123456789";
+
+/// (name, case_sensitive) of a `u?` / `v?` / `d?` op: `v` uses the other flag.
+fn name_of(head: &str, cs: bool) -> (&'static str, bool) {
+    let flag = if head.starts_with('v') { !cs } else { cs };
+    let name = match &head[1..] {
+        "a" => "ka",
+        "b" => "kb",
+        "A" => "Ka",
+        "i" => INVALID_I,
+        "I" => INVALID_SEMI,
+        _ => INVALID_LONG,
+    };
+    (name, flag)
+}
+
+/// The keyspace a server selects for a valid name (`None` = the name is not a valid identifier of 1..48 characters).
+fn server_keyspace(name: &str, case_sensitive: bool) -> Option<String> {
+    let n = name.chars().count();
+    if !(1..=48).contains(&n) || !name.chars().all(|c| c.is_ascii_alphanumeric() || c == '_') {
+        return None;
+    }
+    Some(if case_sensitive { name.to_owned() } else { name.to_ascii_lowercase() })
+}
+
 fn req_text(id: usize) -> String {
     format!("SELECT pk, v FROM t WHERE pk = 0x{:08x}", id)
 }
@@ -87,11 +216,14 @@ fn req_id(text: &str) -> Option<usize> {
 
 pub fn run(words: &[&str], ctx: &mut Ctx) -> String {
     let Some(p) = Params::parse(words) else { return "bad-case".into() };
-    let (Some(n), Some(sh), Some(cs), Some(udelay), Some(seed)) =
-        (p.num("n"), p.num_or("sh", 0), p.num_or("cs", 0), p.num_or("udelay", 0), p.num_or("seed", 1))
+    let (Some(n), Some(sh), Some(cs), Some(udelay), Some(seed), Some(ct)) =
+        (p.num("n"), p.num_or("sh", 0), p.num_or("cs", 0), p.num_or("udelay", 0), p.num_or("seed", 1), p.num_or("ct", 0))
     else {
         return "bad-case".into();
     };
+    if ct > 5000 {
+        return "bad-case".into();
+    }
     let Some(ops_s) = p.str("ops") else { return "bad-case".into() };
     let ops: Vec<&str> = ops_s.split('.').filter(|o| !o.is_empty()).collect();
     if !(1..=8).contains(&n) || sh > 8 || udelay > 500 || ops.len() > 200 {
@@ -100,12 +232,24 @@ pub fn run(words: &[&str], ctx: &mut Ctx) -> String {
     let n = n as usize;
     let shape = Shape { nodes: n, dcs: 1, racks: 1, shards: sh as u16, msb: 12, vnodes: 2, strat: Strat::Simple(1), seed };
     let mut topo = shape.topology();
-    for k in ["ka", "kb"] {
+    for k in ["ka", "kb", "Ka"] {
         topo.keyspaces.push(KeyspaceSpec { name: k.into(), replication: simple_strategy(1), tables: vec![std_table()], initial_tablets: None });
     }
+    // (reject USE with an Invalid error, do not answer USE at all)
+    let faults: std::sync::Arc<std::sync::Mutex<(bool, bool)>> = Default::default();
+    let faults_h = std::sync::Arc::clone(&faults);
     let handler = with_std_prepare(move |r: &Req| match &r.parsed {
         Parsed::Query { text, .. } if parse_use(text).is_some() => {
-            let k = parse_use(text).unwrap();
+            // the keyspace a server selects: a quoted name as it is, an unquoted one lower-cased
+            let raw = text.trim()[4..].trim().trim_end_matches(';').trim().to_owned();
+            let k = if raw.starts_with('"') { raw.trim_matches('"').to_owned() } else { raw.to_ascii_lowercase() };
+            let (reject, mute) = *faults_h.lock().unwrap();
+            if mute {
+                return vec![];
+            }
+            if reject {
+                return vec![act_error(0x2200, "Keyspace does not exist", &[])];
+            }
             let mut acts = Vec::new();
             if udelay > 0 && (r.conn + r.node) % 2 == 1 {
                 acts.push(Act::Delay(Duration::from_millis(udelay)));
@@ -121,7 +265,7 @@ pub fn run(words: &[&str], ctx: &mut Ctx) -> String {
     rt.block_on(async {
         let cluster = MockCluster::start(topo, handler).await;
         cluster.set_auto_use(false);
-        let session = match connect(&cluster, |b| b).await {
+        let session = match connect(&cluster, |b| if ct > 0 { b.connection_timeout(Duration::from_millis(ct)) } else { b }).await {
             Ok(s) => s,
             Err(skip) => return skip,
         };
@@ -161,20 +305,71 @@ pub fn run(words: &[&str], ctx: &mut Ctx) -> String {
             }
             let allowed_now: Vec<String> = confirmed.iter().cloned().collect();
             match (head, arg) {
-                ("ua", None) | ("ub", None) => {
-                    let k = if head == "ua" { "ka" } else { "kb" };
-                    match session.use_keyspace(k, cs != 0).await {
+                ("ua" | "ub" | "uA" | "va" | "vb" | "vA" | "ui" | "uI" | "uJ", None) => {
+                    let (name, flag) = name_of(head, cs != 0);
+                    let valid = server_keyspace(name, flag).is_some();
+                    match session.use_keyspace(name, flag).await {
                         Ok(()) => {
-                            confirmed = Some(k.to_owned());
+                            if !valid {
+                                ctx.fail(format!("e2e keyspace: use_keyspace({:?}) (op #{} `{}`) returned Ok for an invalid name", name, oi, op));
+                            }
+                            confirmed = server_keyspace(name, flag);
                             uses_ok += 1;
                         }
                         Err(_) => {
-                            // the session keyspace is now undetermined (some connections may have switched)
-                            confirmed = None;
+                            // an invalid name is rejected locally: nothing changes. Otherwise the session keyspace is
+                            // now undetermined (some connections may have switched)
+                            if valid {
+                                confirmed = None;
+                            }
                             uses_err += 1;
                         }
                     }
                 }
+                ("da" | "db" | "dA", Some(k)) if k <= 64 => {
+                    // two calls for the same name at once; requests go out as soon as the first one has returned Ok
+                    let (name, flag) = name_of(head, cs != 0);
+                    let target = server_keyspace(name, flag);
+                    let c1 = Box::pin(session.use_keyspace(name, flag));
+                    let c2 = Box::pin(session.use_keyspace(name, flag));
+                    let (first, other) = match futures::future::select(c1, c2).await {
+                        futures::future::Either::Left((r, o)) => (r, o),
+                        futures::future::Either::Right((r, o)) => (r, o),
+                    };
+                    match first {
+                        Ok(()) => {
+                            uses_ok += 1;
+                            let reqs = requests!(k, target.iter().cloned().collect::<Vec<String>>(), true);
+                            let (second, r) = tokio::join!(other, reqs);
+                            results.extend(r);
+                            match second {
+                                Ok(()) => {
+                                    confirmed = target;
+                                    uses_ok += 1;
+                                }
+                                Err(_) => {
+                                    confirmed = None;
+                                    uses_err += 1;
+                                }
+                            }
+                        }
+                        Err(_) => {
+                            uses_err += 1;
+                            match other.await {
+                                Ok(()) => {
+                                    confirmed = target;
+                                    uses_ok += 1;
+                                }
+                                Err(_) => {
+                                    confirmed = None;
+                                    uses_err += 1;
+                                }
+                            }
+                        }
+                    }
+                }
+                ("f", Some(v)) if v <= 1 => faults.lock().unwrap().0 = v == 1,
+                ("t", Some(v)) if v <= 1 => faults.lock().unwrap().1 = v == 1,
                 ("q", Some(k)) if k <= 64 => results.extend(requests!(k, allowed_now.clone(), false).await),
                 ("c", Some(k)) if k <= 64 => results.extend(requests!(k, allowed_now.clone(), true).await),
                 ("xa", Some(k)) | ("xb", Some(k)) if k <= 64 => {
@@ -258,6 +453,20 @@ pub fn run(words: &[&str], ctx: &mut Ctx) -> String {
                     cluster.conn(f.node, f.conn).opened,
                     cluster.conn(f.node, f.conn).keyspace_acks
                 ));
+            }
+        }
+        for f in cluster.frames() {
+            let text = match &f.parsed {
+                Parsed::Query { text, .. } | Parsed::Prepare { text } => text,
+                _ => continue,
+            };
+            for bad in [INVALID_I, INVALID_SEMI, INVALID_LONG] {
+                if text.contains(bad) {
+                    ctx.fail(format!("e2e keyspace: the invalid keyspace name {:?} reached node {} inside {:?}", bad, f.node, text));
+                }
+            }
+            if parse_use(text).is_some() && !f.internal && !["USE ka", "USE kb", "USE Ka", "USE \"ka\"", "USE \"kb\"", "USE \"Ka\""].contains(&text.as_str()) {
+                ctx.fail(format!("e2e keyspace: node {} received the statement {:?}", f.node, text));
             }
         }
         let ok_results = results.iter().filter(|r| **r).count();
